@@ -114,7 +114,9 @@ def vecSigs : List String := [
   "UB2", "UB3", "S2", "S3", "MB2", "MB3", "NB2", "C(S2,UB2)", "C(UB2,S2)", "C(UB3,MB3)", "C(UB2,MB2,S2)",
   "Q(UB2)", "Q(S3)",
   "T(U)", "T(U,UB2)", "T(M,S2,U)", "T(C(U,M),UB3)", "T(Q(U),S2)",
-  "P1(M)", "P2(U)", "P3(U)", "P2(UB2)", "P2(C(U,M))", "T(P2(U),M)"]
+  "P1(M)", "P2(U)", "P3(U)", "P2(UB2)", "P2(C(U,M))", "T(P2(U),M)",
+  "C(UB2,MB2)", "T(C(U,M),C(U,M),C(U,M))", "C(C(U,M),C(U,M),C(U,M))", "P3(C(U,M))", "T(C(UB2,MB2),C(U,M))",
+  "Q(C(UB2,MB2))", "T(C(U,M))", "P1(C(U,M))"]
 
 def matSigs : List String := ["U", "M", "N", "C(U,U)", "C(U,M)", "C(N,U)", "C(U,U,U,M)", "Q(U)"]
 
@@ -130,6 +132,26 @@ def handle : P String := do
     match f with
     | none => pure "ABORT"
     | some f => pure (twice (f.apply m) v showLeaves "R" "R2")
+  | "gvec" =>
+    -- Global::Filter<F, Mirror>::filter_*(v) = F::filter_*(v.local())
+    let m ← modeP
+    let sig ← tok
+    if !["U", "M", "C(U,M)", "UB2", "S2", "C(UB2,MB2)"].contains sig then throw "signature not in the menu"
+    let f ← filterP
+    let v ← vecP
+    match f with
+    | none => pure "ABORT"
+    | some f => pure (twice (f.apply m) v showLeaves "R" "R2")
+  | "gmean" =>
+    let m ← modeP
+    let comm ← nat; let n ← nat
+    let prim ← many n ratN; let dual ← many n ratN
+    let freq ← listOf ratN
+    let v ← vecP
+    match GMeanF.make (comm != 0) prim dual freq, v with
+    | some f, .leaf x => pure (twice (f.apply m) x showQsL "R" "R2")
+    | none, _ => pure "ABORT"
+    | _, _ => throw "gmean: dense vector expected"
   | "mat" =>
     let kind ← tok
     let sig ← tok
